@@ -238,3 +238,35 @@ MUTANTS["C07"] = [
     M("data_prefix_unknown", "osaca/data/n1.yml", "    prefix: x\n", "    prefix: xx\n", "D1", first=True),
     M("data_scale_none", "osaca/data/tx2.yml", "    scale: 1\n", "    scale: ~\n", "D1", first=True),
 ]
+
+MUTANTS["C03"] = [
+    M("scan_from_self", KDG, "instruction_form, kernel[i + 1 :], flag_dependencies", "instruction_form, kernel[i:], flag_dependencies", "R1"),
+    M("scan_skips_next", KDG, "instruction_form, kernel[i + 1 :], flag_dependencies", "instruction_form, kernel[i + 2 :], flag_dependencies", "R1"),
+    M("kill_before_use", KDG, "                    if self.is_read(dst, instr_form):\n                        if (\n                            dst.pre_indexed\n                            or dst.post_indexed\n                            or (isinstance(dst.post_indexed, dict))\n                        ):\n                            yield instr_form, [\"p_indexed\"]\n                        else:\n                            yield instr_form, []\n                    # write to register -> abort\n                    if self.is_written(dst, instr_form):\n                        break",
+      "                    if self.is_written(dst, instr_form):\n                        break\n                    if self.is_read(dst, instr_form):\n                        if (\n                            dst.pre_indexed\n                            or dst.post_indexed\n                            or (isinstance(dst.post_indexed, dict))\n                        ):\n                            yield instr_form, [\"p_indexed\"]\n                        else:\n                            yield instr_form, []", "R2"),
+    M("no_kill", KDG, "                    # write to register -> abort\n                    if self.is_written(dst, instr_form):\n                        break", "                    # write to register -> abort\n                    if self.is_written(dst, instr_form):\n                        pass", "R2"),
+    M("flags_always", KDG, "                if isinstance(dst, FlagOperand) and flag_dependencies:", "                if isinstance(dst, FlagOperand):", "R3"),
+    M("flag_request_dropped_in_lcd", KDG, "        dg = self.create_DG(tmp_kernel, flag_dependencies)", "        dg = self.create_DG(tmp_kernel)", "R3"),
+    M("flag_request_not_from_cli", CLI, "kernel, parser, machine_model, semantics, args.lcd_timeout, args.consider_flag_deps", "kernel, parser, machine_model, semantics, args.lcd_timeout, False", "R3"),
+    M("read_ignores_index", KDG, "                if src.index is not None and isinstance(src.index, RegisterOperand):\n                    is_read = self.parser.is_reg_dependend_of(register, src.index) or is_read\n", "", "R4"),
+    M("read_ignores_store_address", KDG, "                if dst.base is not None:\n                    is_read = self.parser.is_reg_dependend_of(register, dst.base) or is_read\n", "", "R4"),
+    M("read_scans_destinations", KDG, "        is_read = False\n        if instruction_form.semantic_operands is None:\n            return is_read\n        for src in chain(\n            instruction_form.semantic_operands[\"source\"],",
+      "        is_read = False\n        if instruction_form.semantic_operands is None:\n            return is_read\n        for src in chain(\n            instruction_form.semantic_operands[\"destination\"],", "R4"),
+    M("written_ignores_writeback", KDG, "            if isinstance(dst, MemoryOperand):\n                if dst.pre_indexed or dst.post_indexed:\n                    is_written = self.parser.is_reg_dependend_of(register, dst.base) or is_written\n        # Check also", "        # Check also", "R4"),
+    M("written_base_always", KDG, "            if isinstance(src, MemoryOperand):\n                if src.pre_indexed or src.post_indexed:\n                    is_written = self.parser.is_reg_dependend_of(register, src.base) or is_written", "            if isinstance(src, MemoryOperand):\n                if True:\n                    is_written = self.parser.is_reg_dependend_of(register, src.base) or is_written", "R4"),
+    M("written_hit_overwritten", KDG, "                is_written = self.parser.is_flag_dependend_of(register, dst) or is_written", "                is_written = self.parser.is_flag_dependend_of(register, dst)", "R4"),
+    M("rmw_as_source", ISA, "            if op.source and op.destination:\n                op_dict[\"src_dst\"].append(operands[i])\n                continue\n", "", "R5"),
+    M("hidden_roles_swapped", ISA, '                        else "source" if op.source else "destination"\n                    )\n                else:', '                        else "destination" if op.source else "source"\n                    )\n                else:', "R5"),
+    M("explicit_wrong_operand", ISA, '                op_dict["destination"].append(operands[i])\n                continue', '                op_dict["destination"].append(operands[-1])\n                continue', "R5"),
+    M("x86_default_dest_first", ISA, "            # return last operand\n            return instruction_form.operands[-1:]", "            # return last operand\n            return instruction_form.operands[:1]", "R6"),
+    M("a64_sources_all", ISA, "            return [op for op in instruction_form.operands[1:]]", "            return [op for op in instruction_form.operands[0:]]", "R6"),
+    M("edge_attr_renamed", KDG, "                dg.add_edge(\n                    instruction_form.line_number,\n                    dep.line_number,\n                    latency=edge_weight,\n                )", "                dg.add_edge(\n                    instruction_form.line_number,\n                    dep.line_number,\n                    weight=edge_weight,\n                )", "R7"),
+    M("longest_path_other_key", KDG, 'dag_longest_path(self.dg, weight="latency")', 'dag_longest_path(self.dg, weight="lat")', "R7"),
+    M("edge_reversed", KDG, "                dg.add_edge(\n                    instruction_form.line_number,\n                    dep.line_number,", "                dg.add_edge(\n                    dep.line_number,\n                    instruction_form.line_number,", "R7"),
+    M("weight_with_load", KDG, "                    else instruction_form.latency_wo_load\n                )", "                    else instruction_form.latency\n                )", "R7"),
+    M("writeback_weight_const", KDG, 'edge_weight = self.model.get("p_index_latency", 1)', "edge_weight = 1", "R7"),
+    M("zero_idiom_any_operands", ISA, "if isa_data.breaks_dependency_on_equal_operands and operands[1:] == operands[:-1]:", "if isa_data.breaks_dependency_on_equal_operands:", "R8"),
+    M("zero_idiom_reads", ISA, '            op_dict["destination"] += operands\n            if isa_data.hidden_operands != []:', '            op_dict["src_dst"] += operands\n            if isa_data.hidden_operands != []:', "R8"),
+    M("isa_imm_destination", "osaca/data/isa/x86.yml", "        - class: \"immediate\"\n          imd: \"int\"\n          source: true\n          destination: false", "        - class: \"immediate\"\n          imd: \"int\"\n          source: true\n          destination: true", "D1", first=True),
+    M("isa_role_not_bool", "osaca/data/isa/aarch64.yml", "        source: false\n        destination: true\n", "        source: false\n        destination: yes please\n", "D1", first=True),
+]
